@@ -587,3 +587,33 @@ package netceptor
 //@   ghostflag socketclosed set call:PacketConner.Close
 //@   site block * EXITS: [C17] requires waits(doneChan)
 //@   ensures SOCKETRELEASED: [C17] flag("socketclosed")
+
+// ---- C03: the datagram socket under a stream hands QUIC exactly the payload that was delivered to it and sends
+// ---- exactly the bytes QUIC wrote, to the address given, from its own service; the stream methods delegate unchanged
+
+//@ iface NetcForPacketConn.GetNetworkName
+//@   params s
+//@   pure
+//@ func (*PacketConn).ReadFrom
+//@   tags C03
+//@   requires pc != nil && pc.s != nil
+//@   site call copy WHOLE: [C03] requires arg0 == p && arg1 == m.Data && m != nil
+//@   ensures COUNT: [C03] result.1 != nil ==> result.2 == nil && result.0 == nCopied && nCopied == min(len(p), len(m.Data))
+//@   ensures FROM: [C03] result.1 != nil ==> typeis(result.1, "Addr") && unbox(result.1, "Addr").node == m.FromNode && unbox(result.1, "Addr").service == m.FromService
+
+//@ func (*PacketConn).WriteTo
+//@   tags C03
+//@   requires pc != nil && pc.s != nil
+//@   site call SendMessageWithHopsToLive ASGIVEN: [C03] requires arg0 == pc.localService && arg1 == ncaddr.node && arg2 == ncaddr.service && arg3 == p && arg4 == pc.hopsToLive
+//@   ensures ALLSENT: [C03] result.1 == nil ==> result.0 == len(p) && lastcall("SendMessageWithHopsToLive", 0) == nil
+
+//@ func (*Conn).Read
+//@   tags C03
+//@   requires c != nil && c.qs != nil
+//@   site call Read SAMEBUF: [C03] requires arg0 == b
+//@   ensures DELEGATE: [C03] result.0 == lastcall("Read", 0) && result.1 == lastcall("Read", 1)
+//@ func (*Conn).Write
+//@   tags C03
+//@   requires c != nil && c.qs != nil
+//@   site call Write SAMEBUF: [C03] requires arg0 == b
+//@   ensures DELEGATE: [C03] result.0 == lastcall("Write", 0) && result.1 == lastcall("Write", 1)
